@@ -12,101 +12,117 @@ Local Open Scope N_scope.
    `while (hasNext && k < fuel) next` never fails (no out-of-bounds read), yields exactly the
    first [fuel] elements of L, and afterwards hasNext is true iff elements remain.  Taking
    fuel >= length L: the stream is exactly L and hasNext is false exactly after the last one. *)
-Definition iter_denotes {St A} (it : iter St A) (st : St) (L : list A) : Prop :=
-  forall fuel, exists st', drain it fuel st = Some (firstn fuel L, st') /\
+Definition iter_denotes {St A} (it : itmachine St A) (st : St) (L : list A) : Prop :=
+  forall fuel, exists st', drain_iter it fuel st = Some (firstn fuel L, st') /\
                            it_has_next it st' = (fuel <? length L)%nat.
 
-Lemma denotes_full {St A} (it : iter St A) st L : iter_denotes it st L ->
+Lemma denotes_full {St A} (it : itmachine St A) st L : iter_denotes it st L ->
   forall fuel, (length L <= fuel)%nat ->
-  exists st', drain it fuel st = Some (L, st') /\ it_has_next it st' = false.
+  exists st', drain_iter it fuel st = Some (L, st') /\ it_has_next it st' = false.
 Proof.
   intros H fuel Hf. destruct (H fuel) as (st' & Hd & Hn). exists st'.
   rewrite firstn_all2 in Hd by lia. split; [exact Hd|]. rewrite Hn. apply Nat.ltb_ge. lia.
 Qed.
 
-Lemma denotes_more {St A} (it : iter St A) st L : iter_denotes it st L ->
+Lemma denotes_more {St A} (it : itmachine St A) st L : iter_denotes it st L ->
   forall fuel, (fuel < length L)%nat ->
-  exists st', drain it fuel st = Some (firstn fuel L, st') /\ it_has_next it st' = true.
+  exists st', drain_iter it fuel st = Some (firstn fuel L, st') /\ it_has_next it st' = true.
 Proof.
   intros H fuel Hf. destruct (H fuel) as (st' & Hd & Hn). exists st'. split; [exact Hd|].
   rewrite Hn. apply Nat.ltb_lt. lia.
 Qed.
 
-Lemma denotes_run {St A} (it : iter St A) st L : iter_denotes it st L ->
+Lemma denotes_run {St A} (it : itmachine St A) st L : iter_denotes it st L ->
   forall fuel, exists st', run_iter it fuel st = Some (firstn fuel L, (fuel <? length L)%nat, st').
 Proof.
   intros H fuel. destruct (H fuel) as (st' & Hd & Hn). exists st'. unfold run_iter. rewrite Hd, Hn. reflexivity.
 Qed.
 
 (* ---- size_t helpers ------------------------------------------------------------- *)
-Lemma w64_small x : x < two64 -> w64 x = x.
-Proof. intros H. unfold w64. apply N.mod_small. exact H. Qed.
+Lemma wrap64_small x : x < sz64 -> wrap64 x = x.
+Proof. intros H. unfold wrap64. apply N.mod_small. exact H. Qed.
 
-Lemma sub64_ge a b : b <= a -> a < two64 -> sub64 a b = a - b.
-Proof. intros H1 H2. unfold sub64, two64 in *. lia. Qed.
+Lemma sub_sz_ge a b : b <= a -> a < sz64 -> sub_sz a b = a - b.
+Proof. intros H1 H2. unfold sub_sz, sz64 in *. lia. Qed.
 
-Lemma sub64_zero_one : sub64 0 1 = two64 - 1.
+Lemma sub_sz_zero_one : sub_sz 0 1 = sz64 - 1.
 Proof. reflexivity. Qed.
 
-Lemma seqN_length a c : length (seqN a c) = c.
+Lemma seqN_length a c : length (seq_from a c) = c.
 Proof. revert a; induction c as [|c IH]; intros a; simpl; [reflexivity|]. rewrite IH. reflexivity. Qed.
 
-Lemma seqN_In a c x : In x (seqN a c) <-> a <= x < a + N.of_nat c.
+Lemma seqN_In a c x : In x (seq_from a c) <-> a <= x < a + N.of_nat c.
 Proof.
   revert a; induction c as [|c IH]; intros a; simpl.
   - split; [intros []|lia].
   - rewrite IH. lia.
 Qed.
 
-Lemma seqN_ascending a c : ascending_from a (seqN a c).
+Lemma seqN_ascending a c : ascending_from a (seq_from a c).
 Proof. revert a; induction c as [|c IH]; intros a; simpl; constructor; [lia|apply IH]. Qed.
 
 (* ================================================================================ *)
 (* IteratorDictIDContiguous                                                          *)
 (* ================================================================================ *)
 
-Lemma contig_denotes_from l0 r0 r : r < two64 -> forall c p, p + N.of_nat c = r ->
-  iter_denotes contig_iter (mk_cstate l0 r0 p r) (seqN (p + 1) c).
+Lemma drain_0 {St A} (it : itmachine St A) st : drain_iter it 0 st = Some ([], st).
+Proof. reflexivity. Qed.
+Lemma drain_S {St A} (it : itmachine St A) f st : drain_iter it (S f) st =
+  if it_has_next it st then
+    match it_next it st with
+    | None => None
+    | Some (x, st1) => match drain_iter it f st1 with None => None | Some (l, st2) => Some (x :: l, st2) end
+    end
+  else Some ([], st).
+Proof. reflexivity. Qed.
+
+Lemma contig_hn l0 r0 p r : it_has_next contig_iter (mk_cstate l0 r0 p r) = (p <? r).
+Proof. reflexivity. Qed.
+Lemma contig_nx l0 r0 p r : it_next contig_iter (mk_cstate l0 r0 p r) =
+  Some (wrap64 (p + 1), mk_cstate l0 r0 (wrap64 (p + 1)) r).
+Proof. reflexivity. Qed.
+
+Lemma contig_denotes_from l0 r0 r : r < sz64 -> forall c p, p + N.of_nat c = r ->
+  iter_denotes contig_iter (mk_cstate l0 r0 p r) (seq_from (p + 1) c).
 Proof.
   intros Hr. induction c as [|c IH]; intros p Hp fuel.
-  - exists (mk_cstate l0 r0 p r). destruct fuel; cbn [drain contig_iter it_has_next it_next contig_has_next c_processed c_scanneable seqN firstn length].
-    + split; [reflexivity|]. apply N.ltb_ge. lia.
-    + replace (p <? r) with false by (symmetry; apply N.ltb_ge; lia). split; [reflexivity|]. apply N.ltb_ge. lia.
+  - exists (mk_cstate l0 r0 p r). rewrite contig_hn. cbn [seq_from]. rewrite firstn_nil.
+    assert (E : (p <? r) = false) by (apply N.ltb_ge; lia).
+    destruct fuel; [rewrite drain_0|rewrite drain_S, contig_hn, E]; (split; [reflexivity|]); rewrite ?E; reflexivity.
   - destruct fuel as [|fuel].
-    + exists (mk_cstate l0 r0 p r). cbn [drain firstn]. split; [reflexivity|].
-      cbn [contig_iter it_has_next contig_has_next c_processed c_scanneable]. rewrite seqN_length.
-      transitivity true; [apply N.ltb_lt; lia|reflexivity].
-    + cbn [drain contig_iter it_has_next it_next contig_has_next contig_next c_processed c_scanneable c_left c_right].
+    + exists (mk_cstate l0 r0 p r). rewrite drain_0, contig_hn. split; [reflexivity|].
+      rewrite seqN_length. transitivity true; [apply N.ltb_lt; lia|reflexivity].
+    + rewrite drain_S, contig_hn, contig_nx.
       replace (p <? r) with true by (symmetry; apply N.ltb_lt; lia).
-      rewrite w64_small by lia.
+      rewrite wrap64_small by lia.
       destruct (IH (p + 1) ltac:(lia) fuel) as (st' & Hd & Hn).
-      cbn [contig_iter] in Hd. rewrite Hd. exists st'. split; [reflexivity|].
-      rewrite Hn. cbn [seqN length]. reflexivity.
+      rewrite Hd. exists st'. split; [reflexivity|].
+      rewrite Hn. cbn [seq_from length]. reflexivity.
 Qed.
 
 Definition contig_list (l r : N) : list N :=
-  if (1 <=? l) && (l <=? r) then seqN l (N.to_nat (r + 1 - l)) else [].
+  if (1 <=? l) && (l <=? r) then seq_from l (N.to_nat (r + 1 - l)) else [].
 
-Lemma denotes_nil {St A} (it : iter St A) st : it_has_next it st = false -> iter_denotes it st [].
+Lemma denotes_nil {St A} (it : itmachine St A) st : it_has_next it st = false -> iter_denotes it st [].
 Proof.
-  intros H fuel. exists st. destruct fuel; cbn [drain]; [|rewrite H]; rewrite ?firstn_nil; split; auto.
+  intros H fuel. exists st. destruct fuel; cbn [drain_iter]; [|rewrite H]; rewrite ?firstn_nil; split; auto.
 Qed.
 
 (* to_list (Contiguous l r) = [l; l+1; ...; r] for 1 <= l <= r; empty when l = 0 (in particular
    the (NORESULT, NORESULT) = (0,0) convention, where processed = 0 - 1 wraps to 2^64-1) and
    when r < l. *)
-Theorem contig_iter_spec l r : l < two64 -> r < two64 ->
+Theorem contig_iter_spec l r : l < sz64 -> r < sz64 ->
   iter_denotes contig_iter (contig_init l r) (contig_list l r).
 Proof.
   intros Hl Hr. unfold contig_list, contig_init.
   destruct (N.leb_spec 1 l) as [H1|H1]; [destruct (N.leb_spec l r) as [H2|H2]|]; cbn [andb].
-  - rewrite sub64_ge by lia.
+  - rewrite sub_sz_ge by lia.
     replace l with (l - 1 + 1) at 3 by lia.
     apply contig_denotes_from; [exact Hr|lia].
-  - apply denotes_nil. cbn [contig_iter it_has_next contig_has_next c_processed c_scanneable].
-    rewrite sub64_ge by lia. apply N.ltb_ge. lia.
-  - apply denotes_nil. cbn [contig_iter it_has_next contig_has_next c_processed c_scanneable].
-    assert (l = 0) by lia. subst l. rewrite sub64_zero_one. apply N.ltb_ge. unfold two64 in *. lia.
+  - apply denotes_nil. rewrite contig_hn.
+    rewrite sub_sz_ge by lia. apply N.ltb_ge. lia.
+  - apply denotes_nil. rewrite contig_hn.
+    assert (l = 0) by lia. subst l. rewrite sub_sz_zero_one. apply N.ltb_ge. unfold sz64 in *. lia.
 Qed.
 
 Corollary contig_iter_noresult : iter_denotes contig_iter (contig_init 0 0) [].
@@ -127,7 +143,7 @@ Proof.
 Qed.
 
 (* without consulting hasNext the counter simply wraps: next after 2^64-1 is 0 *)
-Lemma contig_next_wraps l0 r0 s : exists st', contig_next (mk_cstate l0 r0 (two64 - 1) s) = Some (0, st').
+Lemma contig_next_wraps l0 r0 s : exists st', contig_next (mk_cstate l0 r0 (sz64 - 1) s) = Some (0, st').
 Proof. eexists. reflexivity. Qed.
 
 (* ================================================================================ *)
@@ -147,9 +163,9 @@ Proof. rewrite lenN_app. reflexivity. Qed.
 
 (* [arr_run it st L bound]: iter_denotes plus the ghost facts: the array is unchanged, every
    index read while draining is < bound *)
-Definition arr_run (it : iter astate N) (st : astate) (L : list N) (bound : N) : Prop :=
+Definition arr_run (it : itmachine astate N) (st : astate) (L : list N) (bound : N) : Prop :=
   forall fuel, exists st',
-    drain it fuel st = Some (firstn fuel L, st') /\
+    drain_iter it fuel st = Some (firstn fuel L, st') /\
     it_has_next it st' = (fuel <? length L)%nat /\
     exists lg, a_log st' = lg ++ a_log st /\ Forall (fun i => i < bound) lg.
 
@@ -157,34 +173,37 @@ Lemma arr_run_denotes it st L b : arr_run it st L b -> iter_denotes it st L.
 Proof. intros H fuel. destruct (H fuel) as (st' & H1 & H2 & _). eauto. Qed.
 
 (* ---- IteratorDictIDNoContiguous --------------------------------------------------- *)
+Lemma nocontig_hn a p k lg : it_has_next nocontig_iter (mk_astate a p k lg) = (p <? k).
+Proof. reflexivity. Qed.
+Lemma nocontig_nx a p k lg : it_next nocontig_iter (mk_astate a p k lg) =
+  match nthN a p with None => None | Some x => Some (x, mk_astate a (wrap64 (p + 1)) k (p :: lg)) end.
+Proof. reflexivity. Qed.
+
 Lemma nocontig_run junk : forall rest pre lg k,
-  k = lenN pre + lenN rest -> lenN (pre ++ rest ++ junk) < two64 ->
+  k = lenN pre + lenN rest -> lenN (pre ++ rest ++ junk) < sz64 ->
   arr_run nocontig_iter (mk_astate (pre ++ rest ++ junk) (lenN pre) k lg) rest k.
 Proof.
   induction rest as [|x r IH]; intros pre lg k Hk Hlen fuel.
-  - exists (mk_astate (pre ++ [] ++ junk) (lenN pre) k lg). rewrite firstn_nil.
-    assert (Hn : arr_has_next (mk_astate (pre ++ [] ++ junk) (lenN pre) k lg) = false).
-    { unfold arr_has_next; cbn [a_processed a_scanneable]. apply N.ltb_ge. rewrite lenN_nil in Hk. lia. }
+  - exists (mk_astate (pre ++ [] ++ junk) (lenN pre) k lg). rewrite firstn_nil, nocontig_hn.
+    assert (E : (lenN pre <? k) = false) by (apply N.ltb_ge; rewrite lenN_nil in Hk; lia).
     split; [|split].
-    + destruct fuel; cbn [drain nocontig_iter it_has_next]; [reflexivity|]. rewrite Hn. reflexivity.
-    + cbn [nocontig_iter it_has_next]. rewrite Hn. symmetry. apply Nat.ltb_ge. simpl. lia.
+    + destruct fuel; [rewrite drain_0|rewrite drain_S, nocontig_hn, E]; reflexivity.
+    + rewrite E. reflexivity.
     + exists []. split; [reflexivity|constructor].
   - rewrite lenN_cons in Hk. destruct fuel as [|fuel].
-    + eexists. cbn [drain firstn]. split; [reflexivity|]. split.
-      * cbn [nocontig_iter it_has_next]. unfold arr_has_next; cbn [a_processed a_scanneable length].
-        transitivity true; [apply N.ltb_lt; lia|reflexivity].
+    + eexists. rewrite drain_0. split; [reflexivity|]. split.
+      * rewrite nocontig_hn. transitivity true; [apply N.ltb_lt; lia|reflexivity].
       * exists []. split; [reflexivity|constructor].
-    + cbn [drain nocontig_iter it_has_next it_next]. unfold arr_has_next at 1; cbn [a_processed a_scanneable].
+    + rewrite drain_S, nocontig_hn, nocontig_nx.
       replace (lenN pre <? k) with true by (symmetry; apply N.ltb_lt; lia).
-      unfold nocontig_next; cbn [a_ids a_processed a_scanneable a_log].
       cbn [app]. rewrite nthN_mid.
-      rewrite w64_small by (rewrite !lenN_app, lenN_cons in Hlen; lia).
+      rewrite wrap64_small by (rewrite !lenN_app, lenN_cons in Hlen; lia).
       assert (E : pre ++ x :: r ++ junk = (pre ++ [x]) ++ r ++ junk) by (rewrite <- app_assoc; reflexivity).
       rewrite E. rewrite <- lenN_snoc with (x := x).
       destruct (IH (pre ++ [x]) (lenN pre :: lg) k) with (fuel := fuel) as (st' & Hd & Hn & lg' & Hlg & Hb).
       { rewrite lenN_snoc. lia. }
       { rewrite <- E. exact Hlen. }
-      cbn [nocontig_iter] in Hd. rewrite lenN_snoc in *. rewrite Hd. exists st'. split; [reflexivity|]. split.
+      rewrite Hd. exists st'. split; [reflexivity|]. split.
       * rewrite Hn. reflexivity.
       * exists (lg' ++ [lenN pre]). split.
         -- rewrite Hlg. cbn [a_log]. rewrite <- app_assoc. reflexivity.
@@ -192,7 +211,7 @@ Proof.
 Qed.
 
 (* NoContiguous(ids, k) streams ids[0..k) in order, reading only indices < k *)
-Theorem nocontig_iter_spec ids junk : lenN (ids ++ junk) < two64 ->
+Theorem nocontig_iter_spec ids junk : lenN (ids ++ junk) < sz64 ->
   arr_run nocontig_iter (arr_init (ids ++ junk) (lenN ids)) ids (lenN ids).
 Proof.
   intros H. unfold arr_init.
@@ -201,14 +220,14 @@ Proof.
 Qed.
 
 (* ---- IteratorDictIDDuplicates ------------------------------------------------------ *)
-Lemma dedup_cons_eq x r : dedup (x :: x :: r) = dedup (x :: r).
-Proof. cbn [dedup]. rewrite N.eqb_refl. reflexivity. Qed.
+Lemma dedup_cons_eq x r : dedup_adj (x :: x :: r) = dedup_adj (x :: r).
+Proof. cbn [dedup_adj]. rewrite N.eqb_refl. reflexivity. Qed.
 
-Lemma dedup_cons_ne x y r : x <> y -> dedup (x :: y :: r) = x :: dedup (y :: r).
-Proof. intros H. change (dedup (x :: y :: r)) with (if x =? y then dedup (y :: r) else x :: dedup (y :: r)).
+Lemma dedup_cons_ne x y r : x <> y -> dedup_adj (x :: y :: r) = x :: dedup_adj (y :: r).
+Proof. intros H. change (dedup_adj (x :: y :: r)) with (if x =? y then dedup_adj (y :: r) else x :: dedup_adj (y :: r)).
   destruct (N.eqb_spec x y); [contradiction|reflexivity]. Qed.
 
-Lemma dedup_nonempty x r : exists y t, dedup (x :: r) = y :: t.
+Lemma dedup_nonempty x r : exists y t, dedup_adj (x :: r) = y :: t.
 Proof.
   revert x; induction r as [|z r IH]; intros x; [exists x, []; reflexivity|].
   destruct (N.eqb_spec x z) as [->|Hne].
@@ -221,13 +240,13 @@ Qed.
    <= that index; the last index read is the one it stops on *)
 Lemma dup_skip_spec junk x : 1 <= x -> forall r pre lg fuel,
   (length r < fuel)%nat -> Forall (fun i => 1 <= i) r ->
-  lenN (pre ++ x :: r ++ 0 :: junk) < two64 ->
+  lenN (pre ++ x :: r ++ 0 :: junk) < sz64 ->
   exists pre' rest' lg',
     dup_skip fuel (pre ++ x :: r ++ 0 :: junk) (lenN pre) lg = Some (lenN pre', lenN pre' :: lg' ++ lg) /\
     pre ++ x :: r ++ 0 :: junk = pre' ++ rest' ++ 0 :: junk /\
     lenN pre' + lenN rest' = lenN pre + 1 + lenN r /\
     lenN pre + 1 <= lenN pre' /\
-    dedup (x :: r) = x :: dedup rest' /\
+    dedup_adj (x :: r) = x :: dedup_adj rest' /\
     Forall (fun i => 1 <= i) rest' /\
     Forall (fun i => i < lenN pre') lg'.
 Proof.
@@ -235,7 +254,7 @@ Proof.
   - destruct fuel as [|fuel]; [simpl in Hf; lia|].
     cbn [dup_skip app].
     rewrite !lenN_app, !lenN_cons in Hlen.
-    rewrite w64_small by lia. rewrite sub64_ge by lia.
+    rewrite wrap64_small by lia. rewrite sub_sz_ge by lia.
     replace (lenN pre + 1 - 1) with (lenN pre) by lia.
     rewrite nthN_mid, nthN_mid1.
     destruct (N.eqb_spec x 0) as [E|_]; [lia|].
@@ -246,7 +265,7 @@ Proof.
     inversion Hr as [|? ? Hy Hr']; subst.
     cbn [dup_skip app].
     pose proof Hlen as Hlen'. rewrite !lenN_app, !lenN_cons in Hlen'.
-    rewrite w64_small by lia. rewrite sub64_ge by lia.
+    rewrite wrap64_small by lia. rewrite sub_sz_ge by lia.
     replace (lenN pre + 1 - 1) with (lenN pre) by lia.
     rewrite nthN_mid, nthN_mid1.
     destruct (N.eqb_spec x y) as [<-|Hne].
@@ -268,4 +287,880 @@ Proof.
       split; [rewrite <- app_assoc; reflexivity|]. split; [rewrite lenN_cons; lia|]. split; [lia|].
       split; [apply dedup_cons_ne; assumption|]. split; [assumption|].
       constructor; [lia|constructor].
+Qed.
+
+Lemma dup_hn a p k lg : it_has_next dup_iter (mk_astate a p k lg) = (p <? k).
+Proof. reflexivity. Qed.
+Lemma dup_nx a p k lg : it_next dup_iter (mk_astate a p k lg) =
+  match nthN a p with
+  | None => None
+  | Some nx => match dup_skip (S (length a)) a p (p :: lg) with
+               | None => None
+               | Some (p', log') => Some (nx, mk_astate a p' k log')
+               end
+  end.
+Proof. reflexivity. Qed.
+
+(* iter_denotes plus the ghost facts about reads: every index read is <= k, and once the stream
+   is exhausted (and was not empty) the newest read is index k, the sentinel *)
+Definition dup_run (st : astate) (L : list N) (k : N) : Prop :=
+  forall fuel, exists st',
+    drain_iter dup_iter fuel st = Some (firstn fuel L, st') /\
+    it_has_next dup_iter st' = (fuel <? length L)%nat /\
+    exists lg, a_log st' = lg ++ a_log st /\ Forall (fun i => i <= k) lg /\
+               (L = [] -> lg = []) /\
+               (L <> [] -> (length L <= fuel)%nat -> exists t, lg = k :: t).
+
+Lemma dedup_nil_inv l : dedup_adj l = [] -> l = [].
+Proof. destruct l as [|x r]; [reflexivity|]. destruct (dedup_nonempty x r) as (y & t & E). rewrite E. discriminate. Qed.
+
+Lemma dup_run_from junk : forall n rest pre lg k, (length rest <= n)%nat ->
+  k = lenN pre + lenN rest -> Forall (fun i => 1 <= i) rest ->
+  lenN (pre ++ rest ++ 0 :: junk) < sz64 ->
+  dup_run (mk_astate (pre ++ rest ++ 0 :: junk) (lenN pre) k lg) (dedup_adj rest) k.
+Proof.
+  induction n as [|n IH]; intros rest pre lg k Hn Hk Hpos Hlen fuel.
+  - destruct rest; [|simpl in Hn; lia]. rewrite lenN_nil in Hk.
+    exists (mk_astate (pre ++ [] ++ 0 :: junk) (lenN pre) k lg). cbn [dedup_adj]. rewrite firstn_nil, dup_hn.
+    assert (E : (lenN pre <? k) = false) by (apply N.ltb_ge; lia).
+    split; [|split].
+    + destruct fuel; [rewrite drain_0|rewrite drain_S, dup_hn, E]; reflexivity.
+    + rewrite E. reflexivity.
+    + exists []. repeat split; auto. congruence.
+  - destruct rest as [|x r].
+    { apply (IH [] pre lg k); auto. simpl; lia. }
+    rewrite lenN_cons in Hk. inversion Hpos as [|? ? Hx Hr]; subst.
+    destruct (dedup_nonempty x r) as (y0 & t0 & Ened).
+    destruct fuel as [|fuel].
+    + eexists. rewrite drain_0. split; [reflexivity|]. split.
+      * rewrite dup_hn. rewrite Ened. transitivity true; [apply N.ltb_lt; lia|reflexivity].
+      * exists []. split; [reflexivity|]. split; [constructor|]. split; [reflexivity|].
+        intros _ Hl. rewrite Ened in Hl. simpl in Hl. lia.
+    + rewrite drain_S, dup_hn, dup_nx.
+      replace (lenN pre <? lenN pre + (1 + lenN r)) with true by (symmetry; apply N.ltb_lt; lia).
+      cbn [app]. rewrite nthN_mid.
+      destruct (dup_skip_spec junk x Hx r pre (lenN pre :: lg) (S (length (pre ++ x :: r ++ 0 :: junk))))
+        as (pre' & rest' & lg' & H1 & H2 & H3 & H3' & H4 & H5 & H6); [|exact Hr|exact Hlen|].
+      { rewrite app_length. simpl. rewrite app_length. lia. }
+      rewrite H1. rewrite H2.
+      destruct (IH rest' pre' (lenN pre' :: lg' ++ lenN pre :: lg) (lenN pre + (1 + lenN r))) with (fuel := fuel)
+        as (st' & Hd & Hnx & lg2 & Hlg & Hb & Hnil & Hlast).
+      { unfold lenN in H3, H3'. simpl in Hn. lia. }
+      { lia. }
+      { exact H5. }
+      { rewrite <- H2. exact Hlen. }
+      rewrite Hd. exists st'. rewrite H4. split; [reflexivity|]. split; [rewrite Hnx; reflexivity|].
+      exists (lg2 ++ lenN pre' :: lg' ++ [lenN pre]). split.
+      { rewrite Hlg. cbn [a_log]. rewrite <- !app_assoc. cbn [app]. rewrite <- app_assoc. reflexivity. }
+      split.
+      { apply Forall_app. split; [exact Hb|]. constructor; [lia|].
+        apply Forall_app. split; [|constructor; [lia|constructor]].
+        eapply Forall_impl; [|exact H6]. cbn beta. intros. lia. }
+      split; [discriminate|].
+      intros _ Hl. cbn [length] in Hl.
+      destruct (dedup_adj rest') eqn:Edr.
+      * rewrite (Hnil eq_refl). apply dedup_nil_inv in Edr. subst rest'. rewrite lenN_nil in H3.
+        replace (lenN pre') with (lenN pre + (1 + lenN r)) by lia. cbn [app]. eauto.
+      * destruct Hlast as (t & ->); [discriminate|simpl in *; lia|]. cbn [app]. eauto.
+Qed.
+
+(* dedup_adj of a non-decreasing list: strictly ascending, same elements *)
+Inductive nondecreasing : list N -> Prop :=
+| nd_nil : nondecreasing []
+| nd_one x : nondecreasing [x]
+| nd_cons x y r : x <= y -> nondecreasing (y :: r) -> nondecreasing (x :: y :: r).
+
+Fixpoint nondecreasing_b (l : list N) : bool :=
+  match l with
+  | [] => true
+  | x :: r => match r with [] => true | y :: _ => (x <=? y) && nondecreasing_b r end
+  end.
+Lemma nondecreasing_b_sound l : nondecreasing_b l = true -> nondecreasing l.
+Proof.
+  induction l as [|x r IH]; [constructor|]. cbn [nondecreasing_b]. destruct r as [|y r']; [constructor|].
+  intros H. apply andb_true_iff in H as [H1 H2]. apply N.leb_le in H1. constructor; auto.
+Qed.
+
+Lemma dedup_In l x : In x (dedup_adj l) <-> In x l.
+Proof.
+  induction l as [|a r IH]; [reflexivity|]. destruct r as [|b r']; [reflexivity|].
+  destruct (N.eqb_spec a b) as [->|Hne].
+  - rewrite dedup_cons_eq, IH. simpl. tauto.
+  - rewrite dedup_cons_ne by assumption. simpl in *. rewrite IH. tauto.
+Qed.
+
+Lemma dedup_head_ge l a y t : nondecreasing (a :: l) -> dedup_adj (a :: l) = y :: t -> a = y.
+Proof.
+  revert a y t; induction l as [|b r IH]; intros a y t Hs E.
+  - simpl in E. congruence.
+  - destruct (N.eqb_spec a b) as [->|Hne].
+    + rewrite dedup_cons_eq in E. inversion Hs; subst. eauto.
+    + rewrite dedup_cons_ne in E by assumption. congruence.
+Qed.
+
+Lemma dedup_ascending l : nondecreasing l -> forall lo, (forall x, In x l -> lo <= x) -> ascending_from lo (dedup_adj l).
+Proof.
+  induction l as [|a r IH]; intros Hs lo Hlo; [constructor|].
+  destruct r as [|b r']; [cbn [dedup_adj]; constructor; [apply Hlo; left; reflexivity|constructor]|].
+  inversion Hs as [| |? ? ? Hab Hs']; subst.
+  destruct (N.eqb_spec a b) as [->|Hne].
+  - rewrite dedup_cons_eq. apply IH; [exact Hs'|]. intros x Hx. apply Hlo. right; exact Hx.
+  - rewrite dedup_cons_ne by assumption. constructor; [apply Hlo; left; reflexivity|].
+    apply IH; [exact Hs'|]. intros x Hx.
+    assert (b <= x).
+    { clear -Hs' Hx. revert b Hs' Hx. induction r' as [|c r'' IH']; intros b Hs' [->|Hx]; try lia; [destruct Hx|].
+      inversion Hs'; subst. destruct Hx as [->|Hx]; [lia|]. specialize (IH' c ltac:(assumption) (or_intror Hx)). lia. }
+    lia.
+Qed.
+
+(* ---- exported statements --------------------------------------------------------- *)
+(* the array handed over by locateSubstr: k ids (all >= 1, as dictionary IDs are) followed by
+   the 0 sentinel; [junk] is whatever follows in memory ([] for the exact allocation) *)
+Theorem dup_iter_run ids junk : Forall (fun i => 1 <= i) ids -> lenN (ids ++ 0 :: junk) < sz64 ->
+  dup_run (arr_init (ids ++ 0 :: junk) (lenN ids)) (dedup_adj ids) (lenN ids).
+Proof.
+  intros Hpos Hlen. unfold arr_init.
+  pose proof (dup_run_from junk (length ids) ids [] [] (lenN ids)) as R. cbn [app] in R. rewrite lenN_nil in R.
+  apply R; auto.
+Qed.
+
+Theorem dup_iter_spec ids junk : Forall (fun i => 1 <= i) ids -> lenN (ids ++ 0 :: junk) < sz64 ->
+  iter_denotes dup_iter (arr_init (ids ++ 0 :: junk) (lenN ids)) (dedup_adj ids).
+Proof.
+  intros H1 H2 fuel. destruct (dup_iter_run ids junk H1 H2 fuel) as (st' & Ha & Hb & _). eauto.
+Qed.
+
+(* for the sorted array locateSubstr produces: each ID exactly once, ascending *)
+Theorem dup_iter_sorted ids : nondecreasing ids ->
+  ascending_from 0 (dedup_adj ids) /\ NoDup (dedup_adj ids) /\ (forall x, In x (dedup_adj ids) <-> In x ids).
+Proof.
+  intros Hs. assert (A : ascending_from 0 (dedup_adj ids)) by (apply dedup_ascending; [exact Hs|intros; lia]).
+  split; [exact A|]. split; [eapply ascending_NoDup; exact A|]. intros x. apply dedup_In.
+Qed.
+
+(* memory safety on the exact allocation of k+1 cells: no read fails, every index read is <= k,
+   and after the last element the newest read is index k (the sentinel is read, nothing beyond) *)
+Theorem dup_iter_no_oob ids : Forall (fun i => 1 <= i) ids -> lenN ids + 1 < sz64 ->
+  forall fuel, exists out st',
+    drain_iter dup_iter fuel (arr_init (dup_array ids) (lenN ids)) = Some (out, st') /\
+    Forall (fun i => i <= lenN ids) (a_log st') /\
+    (ids <> [] -> (length (dedup_adj ids) <= fuel)%nat -> max_read (a_log st') = Some (lenN ids) /\ hd_error (a_log st') = Some (lenN ids)).
+Proof.
+  intros Hpos Hlen fuel. unfold dup_array.
+  destruct (dup_iter_run ids [] Hpos) with (fuel := fuel) as (st' & Hd & _ & lg & Hlg & Hb & _ & Hlast).
+  { rewrite lenN_app, lenN_cons, lenN_nil. lia. }
+  exists (firstn fuel (dedup_adj ids)), st'. split; [exact Hd|].
+  cbn [arr_init a_log] in Hlg. rewrite app_nil_r in Hlg. subst lg. split; [exact Hb|].
+  intros Hne Hf. destruct Hlast as (t & Et); [|exact Hf|].
+  { intros E. apply dedup_nil_inv in E. contradiction. }
+  rewrite Et in *. split; [|reflexivity]. cbn [max_read]. inversion Hb as [|? ? _ Ht]; subst.
+  f_equal. clear -Ht. revert Ht. generalize (lenN ids) as m. intros m. induction t as [|a t IH]; intros Ht; [reflexivity|].
+  inversion Ht; subst. cbn [fold_left]. replace (N.max m a) with m by lia. apply IH; assumption.
+Qed.
+
+(* the precondition "ids are >= 1" is needed: with a 0 id the loop runs through the sentinel *)
+Theorem dup_iter_zero_id_oob : drain_iter dup_iter 1 (arr_init (dup_array [0]) 1) = None.
+Proof. vm_compute. reflexivity. Qed.
+
+(* the sentinel cell is needed: without it the first next() already reads index k *)
+Theorem dup_iter_needs_sentinel : drain_iter dup_iter 1 (arr_init [5] 1) = None.
+Proof. vm_compute. reflexivity. Qed.
+
+(* NoContiguous hands every id out once if the array has no repeats (the stream IS the array) *)
+Corollary nocontig_iter_denotes ids junk : lenN (ids ++ junk) < sz64 ->
+  iter_denotes nocontig_iter (arr_init (ids ++ junk) (lenN ids)) ids.
+Proof. intros H. eapply arr_run_denotes. apply nocontig_iter_spec. exact H. Qed.
+
+(* ================================================================================ *)
+(* binary_search_before_index                                                        *)
+(* ================================================================================ *)
+Section BsbiProofs.
+  Context {A : Type}.
+  Variable cmp : A -> A -> comparison.
+  Hypothesis cmp_eq : forall a b, cmp a b = Eq -> a = b.
+  Hypothesis cmp_antisym : forall a b, cmp b a = CompOpp (cmp a b).
+
+  (* strictly ascending w.r.t. cmp *)
+  Fixpoint ssorted (v : list A) : Prop :=
+    match v with [] => True | x :: r => Forall (fun y => cmp x y = Lt) r /\ ssorted r end.
+
+  Lemma lb_split v t : exists l1 l2, v = l1 ++ l2 /\ Forall (fun x => cmp x t = Lt) l1 /\
+    (l2 = [] \/ exists y r, l2 = y :: r /\ cmp y t <> Lt) /\ lower_bound cmp v t = lenN l1.
+  Proof.
+    induction v as [|x v IH].
+    - exists [], []. repeat split; auto.
+    - cbn [lower_bound]. destruct (cmp x t) eqn:E.
+      + exists [], (x :: v). repeat split; auto. right. exists x, v. split; [reflexivity|congruence].
+      + destruct IH as (l1 & l2 & -> & H1 & H2 & H3). exists (x :: l1), l2.
+        split; [reflexivity|]. split; [constructor; assumption|]. split; [exact H2|]. rewrite H3, lenN_cons. reflexivity.
+      + exists [], (x :: v). repeat split; auto. right. exists x, v. split; [reflexivity|congruence].
+  Qed.
+
+  Lemma count_le_app_lt l1 l2 t : Forall (fun x => cmp x t <> Gt) l1 ->
+    count_le cmp (l1 ++ l2) t = lenN l1 + count_le cmp l2 t.
+  Proof. clear cmp_eq cmp_antisym.
+    induction 1 as [|x l1 Hx _ IH]; [reflexivity|]. cbn [app count_le]. rewrite lenN_cons, IH.
+    destruct (cmp x t); try congruence; lia.
+  Qed.
+
+  Lemma count_le_le_len v t : count_le cmp v t <= lenN v.
+  Proof. clear cmp_eq cmp_antisym. induction v as [|x v IH]; cbn [count_le]; [reflexivity|]. rewrite lenN_cons. destruct (cmp x t); lia. Qed.
+
+  Lemma count_le_after y r t : Forall (fun z => cmp y z = Lt) r -> cmp y t = Eq -> count_le cmp r t = 0.
+  Proof.
+    intros Hf E. apply cmp_eq in E. subst t. destruct r as [|z r]; [reflexivity|].
+    inversion Hf as [|? ? Hz _]; subst. cbn [count_le]. rewrite cmp_antisym, Hz. reflexivity.
+  Qed.
+
+  (* the function returns the index of the last element <= target (0 if there is none) *)
+  Theorem bsbi_last_le v t : v <> [] -> ssorted v -> lenN v < sz64 ->
+    bsbi cmp v t = Some (last_le cmp v t).
+  Proof.
+    intros Hne Hs Hlen. unfold bsbi, last_le.
+    destruct (lb_split v t) as (l1 & l2 & -> & H1 & H2 & H3). rewrite H3.
+    assert (H1' : Forall (fun x => cmp x t <> Gt) l1) by (eapply Forall_impl; [|exact H1]; cbn beta; intros; congruence).
+    rewrite count_le_app_lt by exact H1'.
+    destruct H2 as [->|(y & r & -> & Hy)].
+    - rewrite app_nil_r in *. rewrite N.eqb_refl. cbn [count_le]. f_equal.
+      assert (lenN l1 <> 0) by (destruct l1; [congruence|rewrite lenN_cons; lia]).
+      rewrite sub_sz_ge by lia. lia.
+    - rewrite lenN_app, lenN_cons.
+      destruct (N.eqb_spec (lenN l1) (lenN l1 + (1 + lenN r))) as [E|_]; [lia|].
+      assert (Hsr : Forall (fun z => cmp y z = Lt) r).
+      { clear -Hs. induction l1 as [|a l1 IH]; [exact (proj1 Hs)|]. apply IH. exact (proj2 Hs). }
+      destruct (N.ltb_spec 0 (lenN l1)) as [Hpos|Hz].
+      + destruct (exists_last (l := l1)) as (l1' & a & ->); [intros E0; rewrite E0 in Hpos; unfold lenN in Hpos; simpl in Hpos; lia|].
+        rewrite lenN_snoc. replace (lenN l1' + 1 - 1) with (lenN l1') by lia.
+        rewrite <- app_assoc. cbn [app]. rewrite nthN_mid.
+        replace (l1' ++ a :: y :: r) with ((l1' ++ [a]) ++ y :: r) by (rewrite <- app_assoc; reflexivity).
+        rewrite <- (lenN_snoc l1' a), nthN_mid.
+        assert (Ha : cmp a t = Lt).
+        { rewrite Forall_forall in H1. apply H1. apply in_or_app. right. left. reflexivity. }
+        unfold le_b, lt_b. rewrite Ha. cbn [andb]. rewrite (cmp_antisym y t).
+        cbn [count_le]. destruct (cmp y t) eqn:Ey; [|congruence|]; cbn [CompOpp]; f_equal.
+        * rewrite (count_le_after y r t Hsr Ey). rewrite lenN_snoc. lia.
+        * rewrite lenN_snoc. lia.
+      + assert (l1 = []) by (destruct l1; [reflexivity|rewrite lenN_cons in Hz; lia]). subst l1.
+        cbn [app count_le lenN length N.of_nat]. f_equal.
+        destruct (cmp y t) eqn:Ey; [|congruence|]; [|reflexivity].
+        rewrite (count_le_after y r t Hsr Ey). reflexivity.
+  Qed.
+
+  Lemma last_le_lt_len v t : v <> [] -> last_le cmp v t < lenN v.
+  Proof. clear cmp_eq cmp_antisym.
+    intros Hne. unfold last_le. pose proof (count_le_le_len v t).
+    assert (lenN v <> 0) by (destruct v; [congruence|rewrite lenN_cons; lia]). lia.
+  Qed.
+End BsbiProofs.
+
+(* ================================================================================ *)
+(* Block routing                                                                     *)
+(* ================================================================================ *)
+
+(* ---- the two orders used: std::string_view (= Spec.lex_compare) and unsigned long ---- *)
+Lemma lex_ssorted S : sorted_lt S -> ssorted lex_compare S.
+Proof.
+  induction S as [|s r IH]; intros H; [exact I|]. split; [apply sorted_head_lt; exact H|].
+  apply IH. eapply sorted_tail; eauto.
+Qed.
+
+Lemma Ncompare_antisym a b : N.compare b a = CompOpp (N.compare a b).
+Proof. apply N.compare_antisym. Qed.
+Lemma Ncompare_eq a b : N.compare a b = Eq -> a = b.
+Proof. apply N.compare_eq. Qed.
+
+Lemma sorted_app_inv X Y : sorted_lt (X ++ Y) ->
+  sorted_lt X /\ sorted_lt Y /\ (forall x y, In x X -> In y Y -> lex_lt x y).
+Proof.
+  induction X as [|x X IH]; intros H.
+  - split; [constructor|]. split; [exact H|]. intros x y [].
+  - cbn [app] in H. pose proof (sorted_head_lt _ _ H) as Hf. rewrite Forall_forall in Hf.
+    destruct (IH (sorted_tail _ _ H)) as (H1 & H2 & H3). split; [|split; [exact H2|]].
+    + destruct X as [|t X']; [constructor|]. constructor; [|exact H1]. apply Hf. left; reflexivity.
+    + intros x' y [<-|Hx] Hy; [apply Hf; apply in_or_app; right; exact Hy|apply H3; assumption].
+Qed.
+
+Ltac ln0 := repeat match goal with
+  | |- context [lenN (@nil ?T)] => change (lenN (@nil T)) with 0
+  | H : context [lenN (@nil ?T)] |- _ => change (lenN (@nil T)) with 0 in H
+  end.
+
+(* ---- spec_locate over a concatenation ------------------------------------------ *)
+Lemma index_from_shift q Y : forall i k, 1 <= i ->
+  index_from q Y (i + k) = if index_from q Y i =? 0 then 0 else index_from q Y i + k.
+Proof.
+  induction Y as [|s r IH]; intros i k Hi; cbn [index_from]; [reflexivity|].
+  destruct (str_eqb s q).
+  - destruct (N.eqb_spec i 0); [lia|reflexivity].
+  - replace (i + k + 1) with (i + 1 + k) by lia. apply IH. lia.
+Qed.
+
+Lemma index_from_app q X Y : forall i, 1 <= i ->
+  index_from q (X ++ Y) i = if index_from q X i =? 0 then index_from q Y (i + lenN X) else index_from q X i.
+Proof.
+  induction X as [|s r IH]; intros i Hi; cbn [app index_from].
+  - ln0. rewrite N.add_0_r. reflexivity.
+  - destruct (str_eqb s q).
+    + destruct (N.eqb_spec i 0); [lia|reflexivity].
+    + rewrite IH by lia. rewrite lenN_cons. replace (i + 1 + lenN r) with (i + (1 + lenN r)) by lia. reflexivity.
+Qed.
+
+Lemma spec_locate_mid q X C Y : ~ In q X -> ~ In q Y ->
+  spec_locate (X ++ C ++ Y) q = if spec_locate C q =? 0 then 0 else lenN X + spec_locate C q.
+Proof.
+  intros HX HY. unfold spec_locate.
+  rewrite index_from_app by lia.
+  rewrite (proj2 (index_from_absent q X 1 ltac:(lia)) HX). cbn [N.eqb].
+  rewrite index_from_app by lia. rewrite (index_from_shift q C 1 (lenN X)) by lia.
+  destruct (N.eqb_spec (index_from q C 1) 0) as [E|E].
+  - cbn [N.eqb]. apply index_from_absent; [lia|exact HY].
+  - destruct (N.eqb_spec (index_from q C 1 + lenN X) 0); lia.
+Qed.
+
+(* ---- blocks: first strings and starting indexes --------------------------------- *)
+Lemma block_firsts_app B1 B2 : block_firsts (B1 ++ B2) = block_firsts B1 ++ block_firsts B2.
+Proof. unfold block_firsts. apply flat_map_app. Qed.
+
+Lemma block_firsts_len B : Forall (fun b => b <> []) B -> lenN (block_firsts B) = lenN B.
+Proof.
+  induction 1 as [|b B Hb _ IH]; [reflexivity|]. destruct b as [|s b]; [congruence|].
+  cbn [block_firsts flat_map app] in *. rewrite !lenN_cons. unfold block_firsts in IH. rewrite IH. reflexivity.
+Qed.
+
+Lemma block_firsts_In B x : In x (block_firsts B) -> In x (concat B).
+Proof.
+  induction B as [|b B IH]; [intros []|]. cbn [block_firsts flat_map concat]. intros H.
+  apply in_app_or in H. apply in_or_app. destruct H as [H|H]; [left|right; apply IH; exact H].
+  destruct b; [destruct H|]. destruct H as [<-|[]]. left; reflexivity.
+Qed.
+
+Lemma lenN_concat_app {X} (B1 B2 : list (list X)) : lenN (concat (B1 ++ B2)) = lenN (concat B1) + lenN (concat B2).
+Proof. rewrite concat_app, lenN_app. reflexivity. Qed.
+
+Lemma starts_from_app {X} (B1 B2 : list (list X)) base :
+  starts_from base (B1 ++ B2) = starts_from base B1 ++ starts_from (base + lenN (concat B1)) B2.
+Proof.
+  revert base; induction B1 as [|b B1 IH]; intros base; cbn [app starts_from concat].
+  - ln0. rewrite N.add_0_r. reflexivity.
+  - rewrite IH, lenN_app. f_equal. f_equal. f_equal. lia.
+Qed.
+
+Lemma starts_from_len {X} (B : list (list X)) base : lenN (starts_from base B) = lenN B.
+Proof. revert base; induction B as [|b B IH]; intros base; cbn [starts_from]; [reflexivity|]. rewrite !lenN_cons, IH. reflexivity. Qed.
+
+Lemma starts_from_ge {X} (B : list (list X)) base x : In x (starts_from base B) -> base <= x.
+Proof.
+  revert base; induction B as [|b B IH]; intros base; cbn [starts_from]; [intros []|].
+  intros [<-|H]; [lia|]. apply IH in H. lia.
+Qed.
+
+Lemma starts_from_lt_total {X} (B : list (list X)) base x : Forall (fun b => b <> []) B ->
+  In x (starts_from base B) -> x < base + lenN (concat B).
+Proof.
+  intros Hne. revert base; induction Hne as [|b B Hb _ IH]; intros base; cbn [starts_from concat]; [intros []|].
+  rewrite lenN_app. assert (lenN b <> 0) by (destruct b; [congruence|rewrite lenN_cons; lia]).
+  intros [<-|H']; [lia|]. apply IH in H'. lia.
+Qed.
+
+Lemma starts_ssorted {X} (B : list (list X)) base : Forall (fun b => b <> []) B ->
+  ssorted N.compare (starts_from base B).
+Proof.
+  intros Hne. revert base; induction Hne as [|b B Hb _ IH]; intros base; cbn [starts_from ssorted]; [exact I|].
+  split; [|apply IH]. apply Forall_forall. intros x Hx. apply starts_from_ge in Hx.
+  assert (lenN b <> 0) by (destruct b; [congruence|rewrite lenN_cons; lia]).
+  apply N.compare_lt_iff. lia.
+Qed.
+
+(* which entry of the starting indexes an offset t selects *)
+Lemma starts_route {X} (pre : list (list X)) b post base t :
+  Forall (fun b => b <> []) (pre ++ b :: post) ->
+  base + lenN (concat pre) <= t < base + lenN (concat pre) + lenN b ->
+  last_le N.compare (starts_from base (pre ++ b :: post)) t = lenN pre.
+Proof.
+  unfold last_le. intros Hne Ht.
+  enough (count_le N.compare (starts_from base (pre ++ b :: post)) t = lenN pre + 1) by lia.
+  revert base Hne Ht; induction pre as [|a pre IH]; intros base Hne Ht; cbn [app starts_from count_le concat] in *.
+  - ln0. destruct (N.compare_spec base t); try lia.
+    + destruct post as [|c post]; cbn [starts_from count_le]; [reflexivity|].
+      destruct (N.compare_spec (base + lenN b) t); lia.
+    + destruct post as [|c post]; cbn [starts_from count_le]; [reflexivity|].
+      destruct (N.compare_spec (base + lenN b) t); lia.
+  - rewrite lenN_app in Ht. rewrite lenN_cons.
+    inversion Hne; subst.
+    destruct (N.compare_spec base t); try lia; rewrite IH; auto; lia.
+Qed.
+
+Lemma count_le_all v t : Forall (fun x => x <= t) v -> count_le N.compare v t = lenN v.
+Proof.
+  induction 1 as [|x v Hx _ IH]; [reflexivity|]. cbn [count_le]. rewrite lenN_cons, IH.
+  destruct (N.compare_spec x t); lia.
+Qed.
+
+Lemma block_at {X} (B : list (list X)) t : t < lenN (concat B) ->
+  exists pre b post, B = pre ++ b :: post /\ lenN (concat pre) <= t < lenN (concat pre) + lenN b.
+Proof.
+  induction B as [|a B IH] in t |- *; cbn [concat]; [ln0; lia|].
+  rewrite lenN_app. intros Ht. destruct (N.ltb_spec t (lenN a)) as [Hlt|Hge].
+  - exists [], a, B. split; [reflexivity|]. cbn [concat]. ln0. lia.
+  - destruct (IH (t - lenN a) ltac:(lia)) as (pre & b & post & -> & H).
+    exists (a :: pre), b, post. split; [reflexivity|]. cbn [concat]. rewrite lenN_app. lia.
+Qed.
+
+(* which sample a member q of block b selects: exactly b's position *)
+Lemma samples_route pre b post q :
+  Forall (fun b => b <> []) (pre ++ b :: post) -> sorted_lt (concat (pre ++ b :: post)) -> In q b ->
+  last_le lex_compare (block_firsts (pre ++ b :: post)) q = lenN pre.
+Proof.
+  intros Hne Hs Hq. unfold last_le.
+  enough (count_le lex_compare (block_firsts (pre ++ b :: post)) q = lenN pre + 1) by lia.
+  rewrite concat_app in Hs. cbn [concat] in Hs.
+  destruct (sorted_app_inv _ _ Hs) as (_ & Hs2 & Hlt1).
+  destruct (sorted_app_inv _ _ Hs2) as (Hsb & _ & Hlt2).
+  rewrite block_firsts_app. rewrite count_le_app_lt.
+  - rewrite block_firsts_len by (apply Forall_app in Hne; tauto). f_equal.
+    destruct b as [|f b']; [destruct Hq|]. cbn [block_firsts flat_map app].
+    assert (Hfq : lex_compare f q <> Gt).
+    { destruct Hq as [->|Hq]; [rewrite lex_compare_refl; discriminate|].
+      pose proof (sorted_head_lt _ _ Hsb) as Hf. rewrite Forall_forall in Hf. rewrite (Hf q Hq). discriminate. }
+    cbn [count_le]. replace (match lex_compare f q with Gt => 0 | _ => 1 + count_le lex_compare (flat_map (fun b => match b with [] => [] | s :: _ => [s] end) post) q end)
+      with (1 + count_le lex_compare (block_firsts post) q) by (unfold block_firsts; destruct (lex_compare f q); congruence).
+    destruct post as [|c post]; [reflexivity|].
+    apply Forall_app in Hne as [_ Hne]. inversion Hne as [|? ? _ Hne']; subst. inversion Hne' as [|? ? Hc _]; subst.
+    destruct c as [|g c']; [congruence|]. cbn [block_firsts flat_map app count_le].
+    assert (lex_lt q g) by (apply Hlt2; [exact Hq|cbn [concat]; left; reflexivity]).
+    rewrite lex_compare_antisym. unfold lex_lt in H. rewrite H. reflexivity.
+  - apply Forall_forall. intros x Hx. apply block_firsts_In in Hx.
+    assert (lex_lt x q) by (apply Hlt1; [exact Hx|apply in_or_app; left; exact Hq]).
+    unfold lex_lt in H. rewrite H. discriminate.
+Qed.
+
+Lemma firsts_ssorted B : Forall (fun b => b <> []) B -> sorted_lt (concat B) ->
+  ssorted lex_compare (block_firsts B).
+Proof.
+  induction 1 as [|b B Hb _ IH]; intros Hs; [exact I|].
+  destruct b as [|f b']; [congruence|]. cbn [concat] in Hs.
+  destruct (sorted_app_inv _ _ Hs) as (_ & Hs2 & Hlt).
+  cbn [block_firsts flat_map app ssorted]. split; [|apply IH; exact Hs2].
+  apply Forall_forall. intros x Hx. apply block_firsts_In in Hx. apply Hlt; [left; reflexivity|exact Hx].
+Qed.
+
+Lemma lenN_blocks_le {X} (B : list (list X)) : Forall (fun b => b <> []) B -> lenN B <= lenN (concat B).
+Proof.
+  induction 1 as [|b B Hb _ IH]; [reflexivity|]. cbn [concat]. rewrite lenN_app, lenN_cons.
+  assert (lenN b <> 0) by (destruct b; [congruence|rewrite lenN_cons; lia]). lia.
+Qed.
+
+Lemma split_at {X} (l : list X) j : j < lenN l -> exists pre x post, l = pre ++ x :: post /\ lenN pre = j.
+Proof.
+  revert j; induction l as [|a l IH]; intros j Hj; [unfold lenN in Hj; simpl in Hj; lia|].
+  destruct (N.eq_dec j 0) as [->|Hnz].
+  - exists [], a, l. split; reflexivity.
+  - rewrite lenN_cons in Hj. destruct (IH (j - 1) ltac:(lia)) as (pre & x & post & -> & Hl).
+    exists (a :: pre), x, post. split; [reflexivity|]. rewrite lenN_cons. lia.
+Qed.
+
+Section BlocksProofs.
+  Context {P : Type}.
+  Variable ploc : P -> str -> N.
+  Variable pext : P -> N -> option str.
+  Variable blk : P -> list str.    (* the sorted range of the input the part was built from *)
+  Variable cont : P -> list str.   (* the same strings in the part's own ID order *)
+
+  (* "the part answers its own specification": a dictionary over its block whose local IDs are the
+     positions in [cont p] (= [blk p] for an order-preserving part, a permutation for a hash part) *)
+  Definition part_ok (p : P) : Prop :=
+    blk p <> [] /\ (forall q, In q (cont p) <-> In q (blk p)) /\ lenN (cont p) = lenN (blk p) /\
+    (forall q, ploc p q = spec_locate (cont p) q) /\ (forall i, pext p i = spec_extract (cont p) i).
+
+  Definition bdict_of (parts : list P) : bdict :=
+    mk_bdict (lenN (concat (map blk parts))) (block_firsts (map blk parts)) (starts_from 0 (map blk parts)) parts.
+  Definition ids_view (parts : list P) : list str := concat (map cont parts).
+
+  Variable parts : list P.
+  Hypothesis parts_ok : Forall part_ok parts.
+  Hypothesis parts_ne : parts <> [].
+  Hypothesis S_sorted : sorted_lt (concat (map blk parts)).
+  Hypothesis S_small : lenN (concat (map blk parts)) < sz64.
+
+  Lemma blocks_nonempty l : Forall part_ok l -> Forall (fun b => b <> []) (map blk l).
+  Proof using Type. clear. induction 1 as [|p l Hp _ IH]; cbn [map]; constructor; [exact (proj1 Hp)|exact IH]. Qed.
+
+  Lemma cont_len l : Forall part_ok l -> lenN (concat (map cont l)) = lenN (concat (map blk l)).
+  Proof using Type.
+    clear. induction 1 as [|p l Hp _ IH]; cbn [map concat]; [reflexivity|]. rewrite !lenN_app, IH.
+    destruct Hp as (_ & _ & -> & _). reflexivity.
+  Qed.
+
+  Lemma in_cont_blk l q : Forall part_ok l -> In q (concat (map cont l)) ->
+    exists l1 p l2, l = l1 ++ p :: l2 /\ In q (blk p).
+  Proof using Type.
+    clear. intros Hok Hin. apply in_concat in Hin as (c & Hc & Hq). apply in_map_iff in Hc as (p & <- & Hp).
+    apply in_split in Hp as (l1 & l2 & ->). exists l1, p, l2. split; [reflexivity|].
+    apply Forall_app in Hok as [_ Hok]. inversion Hok as [|? ? Hp _]; subst. apply Hp. exact Hq.
+  Qed.
+
+  (* the block chosen for q: the last block whose first string is <= q (block 0 if there is none);
+     it is the only block that can contain q *)
+  Theorem bsbi_samples_spec q :
+    let j := last_le lex_compare (block_firsts (map blk parts)) q in
+    bsbi lex_compare (bd_samples (bdict_of parts)) q = Some j /\ j < lenN parts /\
+    (forall pre p post, parts = pre ++ p :: post -> In q (blk p) -> lenN pre = j).
+  Proof.
+    cbn zeta. pose proof (blocks_nonempty parts parts_ok) as Hne.
+    assert (Hlen : lenN (block_firsts (map blk parts)) = lenN parts).
+    { rewrite block_firsts_len by exact Hne. unfold lenN. rewrite map_length. reflexivity. }
+    split; [|split].
+    - cbn [bdict_of bd_samples]. apply bsbi_last_le.
+      + apply lex_compare_eq.
+      + apply lex_compare_antisym.
+      + intros E. rewrite E in Hlen. destruct parts; [congruence|]. unfold lenN in Hlen. simpl in Hlen. lia.
+      + apply firsts_ssorted; assumption.
+      + rewrite Hlen. pose proof (lenN_blocks_le _ Hne) as H. unfold lenN in H at 1. rewrite map_length in H. fold (lenN parts) in H. lia.
+    - rewrite <- Hlen. apply last_le_lt_len. intros E. rewrite E in Hlen.
+      destruct parts; [congruence|]. unfold lenN in Hlen. simpl in Hlen. lia.
+    - intros pre p post E Hq.
+      assert (EB : map blk parts = map blk pre ++ blk p :: map blk post) by (rewrite E, map_app; reflexivity).
+      rewrite EB. rewrite samples_route.
+      + unfold lenN. rewrite map_length. reflexivity.
+      + rewrite <- EB. exact Hne.
+      + rewrite <- EB. exact S_sorted.
+      + exact Hq.
+  Qed.
+
+  (* locate of the block dictionary = locate of the global specification (ID = local ID + start) *)
+  Theorem blocks_locate_spec q :
+    blocks_locate ploc (bdict_of parts) q = Some (spec_locate (ids_view parts) q).
+  Proof.
+    destruct (bsbi_samples_spec q) as (Hb & Hj & Huniq). cbn zeta in *.
+    remember (last_le lex_compare (block_firsts (map blk parts)) q) as j eqn:Ej. clear Ej.
+    unfold blocks_locate. rewrite Hb.
+    destruct (split_at parts _ Hj) as (pre & p & post & E & Hpre).
+    cbn [bdict_of bd_parts bd_starts]. rewrite <- Hpre. rewrite E at 1. rewrite nthN_mid.
+    pose proof parts_ok as Hok. rewrite E in Hok. apply Forall_app in Hok as [Hok1 Hok2].
+    inversion Hok2 as [|? ? Hp Hok3]; subst.
+    destruct Hp as (Hbne & Hmem & Hl & Hloc & Hext).
+    rewrite Hloc.
+    (* q can only be in block p *)
+    assert (Hnpre : ~ In q (concat (map cont pre))).
+    { intros Hin. destruct (in_cont_blk pre q Hok1 Hin) as (l1 & p' & l2 & -> & Hq').
+      specialize (Huniq l1 p' (l2 ++ p :: post)). rewrite <- app_assoc in Huniq. specialize (Huniq eq_refl Hq').
+      rewrite lenN_app, lenN_cons in Huniq. lia. }
+    assert (Hnpost : ~ In q (concat (map cont post))).
+    { intros Hin. destruct (in_cont_blk post q Hok3 Hin) as (l1 & p' & l2 & -> & Hq').
+      specialize (Huniq (pre ++ p :: l1) p' l2). rewrite <- app_assoc in Huniq. specialize (Huniq eq_refl Hq').
+      rewrite lenN_app, lenN_cons in Huniq. lia. }
+    unfold ids_view. rewrite (map_app cont), concat_app. cbn [map concat].
+    rewrite spec_locate_mid by assumption.
+    destruct (N.ltb_spec 0 (spec_locate (cont p) q)) as [Hpos|Hz].
+    - destruct (N.eqb_spec (spec_locate (cont p) q) 0); [lia|].
+      rewrite (map_app blk). cbn [map]. rewrite starts_from_app. cbn [starts_from].
+      replace (lenN pre) with (lenN (starts_from 0 (map blk pre))) by (rewrite starts_from_len; unfold lenN; rewrite map_length; reflexivity).
+      rewrite nthN_mid. f_equal. rewrite (cont_len pre Hok1). rewrite N.add_0_l.
+      rewrite wrap64_small; [lia|].
+      destruct (spec_locate_range (cont p) q) as [|Hr]; [lia|].
+      rewrite map_app, concat_app, lenN_app in S_small. cbn [map concat] in S_small. rewrite lenN_app in S_small. lia.
+    - destruct (N.eqb_spec (spec_locate (cont p) q) 0); [reflexivity|lia].
+  Qed.
+
+  Lemma starts_nth pre p post :
+    nthN (starts_from 0 (map blk (pre ++ p :: post))) (lenN pre) = Some (lenN (concat (map blk pre))).
+  Proof using Type.
+    clear. rewrite (map_app blk). cbn [map]. rewrite starts_from_app. cbn [starts_from].
+    replace (lenN pre) with (lenN (starts_from 0 (map blk pre)))
+      by (rewrite starts_from_len; unfold lenN; rewrite map_length; reflexivity).
+    rewrite nthN_mid, N.add_0_l. reflexivity.
+  Qed.
+
+  Lemma part_at l t : t < lenN (concat (map blk l)) ->
+    exists pre p post, l = pre ++ p :: post /\
+      lenN (concat (map blk pre)) <= t < lenN (concat (map blk pre)) + lenN (blk p).
+  Proof using Type.
+    clear. induction l as [|a l IH] in t |- *; cbn [map concat]; [ln0; lia|].
+    rewrite lenN_app. intros Ht. destruct (N.ltb_spec t (lenN (blk a))) as [Hlt|Hge].
+    - exists [], a, l. split; [reflexivity|]. cbn [map concat]. ln0. lia.
+    - destruct (IH (t - lenN (blk a)) ltac:(lia)) as (pre & b & post & -> & H).
+      exists (a :: pre), b, post. split; [reflexivity|]. cbn [map concat]. rewrite lenN_app. lia.
+  Qed.
+
+  Lemma starts_facts :
+    starts_from 0 (map blk parts) <> [] /\ ssorted N.compare (starts_from 0 (map blk parts)) /\
+    lenN (starts_from 0 (map blk parts)) = lenN parts /\ lenN parts <= lenN (concat (map blk parts)).
+  Proof.
+    pose proof (blocks_nonempty parts parts_ok) as Hne.
+    assert (L : lenN (starts_from 0 (map blk parts)) = lenN parts)
+      by (rewrite starts_from_len; unfold lenN; rewrite map_length; reflexivity).
+    split; [|split; [apply starts_ssorted; exact Hne|split; [exact L|]]].
+    - intros E. rewrite E in L. destruct parts; [congruence|]. unfold lenN in L. simpl in L. lia.
+    - pose proof (lenN_blocks_le _ Hne) as H. unfold lenN in H at 1. rewrite map_length in H. exact H.
+  Qed.
+
+  (* extract of the block dictionary = extract of the global specification, for EVERY id:
+     id = 0 (where id - 1 wraps to 2^64-1 and the last part is asked for 0 - start), 1..n, and > n *)
+  Theorem blocks_extract_spec id : id < sz64 ->
+    blocks_extract pext (bdict_of parts) id = Some (spec_extract (ids_view parts) id).
+  Proof.
+    intros Hid. unfold blocks_extract. cbn [bdict_of bd_qty bd_starts bd_parts].
+    pose proof (cont_len parts parts_ok) as Hn. fold (ids_view parts) in Hn.
+    destruct starts_facts as (Sne & Ssort & Slen & Sle).
+    pose proof (blocks_nonempty parts parts_ok) as Hne.
+    destruct (N.ltb_spec (lenN (concat (map blk parts))) id) as [Hgt|Hle].
+    { rewrite spec_extract_out_of_range by (right; lia). reflexivity. }
+    rewrite (bsbi_last_le N.compare Ncompare_eq Ncompare_antisym) by (auto; lia).
+    destruct (N.eq_dec id 0) as [->|Hnz].
+    - (* id = 0 *)
+      rewrite sub_sz_zero_one. unfold last_le. rewrite count_le_all.
+      2:{ apply Forall_forall. intros x Hx. apply (starts_from_lt_total _ 0 x Hne) in Hx. unfold sz64 in *. lia. }
+      rewrite Slen.
+      destruct (exists_last parts_ne) as (pre & p & E).
+      pose proof parts_ok as Hok. rewrite E in Hok. apply Forall_app in Hok as [Hok1 Hok2].
+      inversion Hok2 as [|? ? Hp _]; subst. destruct Hp as (Hbne & Hmem & Hl & Hloc & Hext).
+      rewrite lenN_snoc. replace (lenN pre + 1 - 1) with (lenN pre) by lia.
+      rewrite starts_nth, nthN_mid, Hext.
+      rewrite (map_app blk), concat_app, lenN_app in S_small. cbn [map concat] in S_small. rewrite app_nil_r in S_small.
+      rewrite spec_extract_out_of_range; [reflexivity|].
+      unfold sub_sz, sz64 in *. destruct (N.eq_dec (lenN (concat (map blk pre))) 0) as [->|Hs]; [left; reflexivity|right; lia].
+    - (* 1 <= id <= n *)
+      rewrite sub_sz_ge by lia.
+      destruct (part_at parts (id - 1) ltac:(lia)) as (pre & p & post & E & Hrange).
+      pose proof parts_ok as Hok. rewrite E in Hok. apply Forall_app in Hok as [Hok1 Hok2].
+      inversion Hok2 as [|? ? Hp Hok3]; subst. destruct Hp as (Hbne & Hmem & Hl & Hloc & Hext).
+      assert (Hroute : last_le N.compare (starts_from 0 (map blk (pre ++ p :: post))) (id - 1) = lenN pre).
+      { rewrite (map_app blk) in Hne |- *. cbn [map] in Hne |- *. rewrite starts_route by (auto; lia).
+        unfold lenN. rewrite map_length. reflexivity. }
+      rewrite Hroute.
+      rewrite starts_nth, nthN_mid, Hext. f_equal.
+      rewrite sub_sz_ge by lia.
+      unfold ids_view. rewrite (map_app cont), concat_app. cbn [map concat].
+      unfold spec_extract.
+      destruct (N.eqb_spec (id - lenN (concat (map blk pre))) 0); [lia|]. destruct (N.eqb_spec id 0); [lia|].
+      rewrite nthN_app_r by (rewrite (cont_len pre Hok1); lia).
+      rewrite nthN_app_l by (rewrite (cont_len pre Hok1), Hl; lia).
+      rewrite (cont_len pre Hok1). f_equal. lia.
+  Qed.
+
+  (* ---- the delegating string iterator (extractTable) ------------------------------ *)
+  Lemma skipn_nthN {X} (l : list X) i x : nthN l i = Some x ->
+    skipn (N.to_nat i) l = x :: skipn (N.to_nat (i + 1)) l.
+  Proof using Type.
+    clear. unfold nthN. replace (N.to_nat (i + 1)) with (S (N.to_nat i)) by lia.
+    generalize (N.to_nat i) as k. intros k. revert l. induction k as [|k IH]; intros [|a l] H; simpl in *; try discriminate.
+    - congruence.
+    - apply IH. exact H.
+  Qed.
+
+  Lemma span_at pre p post : parts = pre ++ p :: post ->
+    part_span (bdict_of parts) (lenN pre) = Some (lenN (blk p)).
+  Proof.
+    intros E. destruct starts_facts as (_ & _ & Slen & Sle).
+    assert (Hpl : lenN parts < sz64) by lia. clear Sle.
+    unfold part_span, to_index. cbn [bdict_of bd_starts bd_qty]. rewrite Slen.
+    pose proof S_small as Hsm. rewrite E in Slen, Hsm, Hpl |- *.
+    rewrite starts_nth.
+    rewrite (map_app blk), concat_app, lenN_app in Hsm. cbn [map concat] in Hsm. rewrite lenN_app in Hsm.
+    rewrite lenN_app, lenN_cons in Hpl |- *. rewrite sub_sz_ge by lia.
+    destruct post as [|p2 post'].
+    - replace (lenN pre <? lenN pre + (1 + lenN []) - 1) with false by (symmetry; apply N.ltb_ge; ln0; lia).
+      rewrite (map_app blk), concat_app, lenN_app. cbn [map concat]. rewrite app_nil_r.
+      f_equal. rewrite sub_sz_ge by (unfold sz64 in *; lia). lia.
+    - replace (lenN pre <? lenN pre + (1 + lenN (p2 :: post')) - 1) with true by (symmetry; apply N.ltb_lt; rewrite lenN_cons; lia).
+      replace (pre ++ p :: p2 :: post') with ((pre ++ [p]) ++ p2 :: post') by (rewrite <- app_assoc; reflexivity).
+      rewrite <- (lenN_snoc pre p), starts_nth.
+      rewrite (map_app blk), concat_app, lenN_app. cbn [map concat]. rewrite app_nil_r.
+      f_equal. rewrite sub_sz_ge by (unfold sz64 in *; lia). lia.
+  Qed.
+
+  Hypothesis S_small1 : lenN (concat (map blk parts)) + 1 < sz64.
+
+  Lemma table_run_part pre p post L : parts = pre ++ p :: post ->
+    iter_denotes (table_iter pext (bdict_of parts)) (mk_tstate 1 (lenN pre + 1)) L ->
+    forall m c, c + N.of_nat m = lenN (cont p) -> 1 <= c ->
+    iter_denotes (table_iter pext (bdict_of parts)) (mk_tstate c (lenN pre))
+                 (map Some (skipn (N.to_nat (c - 1)) (cont p)) ++ L).
+  Proof.
+    intros E HL.
+    pose proof parts_ok as Hok. rewrite E in Hok. apply Forall_app in Hok as [_ Hok2].
+    inversion Hok2 as [|? ? Hp _]; subst x l. destruct Hp as (Hbne & Hmem & Hl & Hloc & Hext).
+    destruct starts_facts as (_ & _ & _ & Sle).
+    assert (Hpl : lenN pre + 1 <= lenN parts) by (rewrite E, lenN_app, lenN_cons; lia).
+    assert (Hcl : lenN (cont p) <= lenN (concat (map blk parts))).
+    { rewrite Hl, E, (map_app blk), concat_app, lenN_app. cbn [map concat]. rewrite lenN_app. lia. }
+    assert (Hhn : forall c, 1 <= c <= lenN (cont p) ->
+              it_has_next (table_iter pext (bdict_of parts)) (mk_tstate c (lenN pre)) = true).
+    { intros c Hc. cbn [table_iter it_has_next]. unfold table_has_next. cbn [t_part t_current bdict_of bd_parts].
+      replace (lenN pre <? lenN parts) with true by (symmetry; apply N.ltb_lt; lia).
+      change (mk_bdict _ _ _ parts) with (bdict_of parts).
+      rewrite (span_at pre p post E). apply N.leb_le. lia. }
+    assert (Hnx : forall c x, 1 <= c <= lenN (cont p) -> nthN (cont p) (c - 1) = Some x ->
+              it_next (table_iter pext (bdict_of parts)) (mk_tstate c (lenN pre)) =
+              Some (Some x, if lenN (cont p) <? c + 1 then mk_tstate 1 (lenN pre + 1) else mk_tstate (c + 1) (lenN pre))).
+    { intros c x Hc Hx. cbn [table_iter it_next]. unfold table_next. cbn [t_part t_current].
+      rewrite (span_at pre p post E). cbn [bdict_of bd_parts]. rewrite E at 1. rewrite nthN_mid.
+      rewrite Hext. unfold spec_extract. destruct (N.eqb_spec c 0); [lia|]. rewrite Hx.
+      rewrite !wrap64_small by (unfold sz64 in *; lia). rewrite <- Hl.
+      destruct (lenN (cont p) <? c + 1); reflexivity. }
+    induction m as [|m IH]; intros c Hc H1.
+    - (* the last element of this part *)
+      rewrite N.add_0_r in Hc. subst c.
+      destruct (nthN_lt_Some (cont p) (lenN (cont p) - 1) ltac:(lia)) as (x & Hx).
+      rewrite (skipn_nthN _ _ _ Hx). replace (lenN (cont p) - 1 + 1) with (lenN (cont p)) by lia.
+      rewrite skipn_all2 by (unfold lenN; lia). cbn [map app].
+      intros fuel. destruct fuel as [|fuel].
+      + eexists. rewrite drain_0. split; [reflexivity|]. rewrite Hhn by lia. reflexivity.
+      + rewrite drain_S, Hhn by lia. rewrite (Hnx _ x) by (auto; lia).
+        replace (lenN (cont p) <? lenN (cont p) + 1) with true by (symmetry; apply N.ltb_lt; lia).
+        destruct (HL fuel) as (st' & Hd & Hn). rewrite Hd. exists st'. split; [reflexivity|]. rewrite Hn. reflexivity.
+    - destruct (nthN_lt_Some (cont p) (c - 1) ltac:(lia)) as (x & Hx).
+      rewrite (skipn_nthN _ _ _ Hx). replace (c - 1 + 1) with (c + 1 - 1) by lia. cbn [map app].
+      intros fuel. destruct fuel as [|fuel].
+      + eexists. rewrite drain_0. split; [reflexivity|]. rewrite Hhn by lia. reflexivity.
+      + rewrite drain_S, Hhn by lia. rewrite (Hnx _ x) by (auto; lia).
+        replace (lenN (cont p) <? c + 1) with false by (symmetry; apply N.ltb_ge; lia).
+        destruct (IH (c + 1) ltac:(lia) ltac:(lia) fuel) as (st' & Hd & Hn). rewrite Hd. exists st'.
+        split; [reflexivity|]. rewrite Hn. reflexivity.
+  Qed.
+
+  Lemma table_run_from : forall post pre, parts = pre ++ post ->
+    iter_denotes (table_iter pext (bdict_of parts)) (mk_tstate 1 (lenN pre)) (map Some (concat (map cont post))).
+  Proof.
+    induction post as [|p post IH]; intros pre E.
+    - apply denotes_nil. cbn [table_iter it_has_next]. unfold table_has_next. cbn [t_part bdict_of bd_parts].
+      rewrite app_nil_r in E. rewrite <- E. rewrite N.ltb_irrefl. reflexivity.
+    - cbn [map concat]. rewrite map_app.
+      pose proof parts_ok as Hok. rewrite E in Hok. apply Forall_app in Hok as [_ Hok2].
+      inversion Hok2 as [|? ? Hp _]; subst x l. destruct Hp as (Hbne & _ & Hl & _).
+      assert (lenN (cont p) <> 0) by (rewrite Hl; destruct (blk p); [congruence|rewrite lenN_cons; lia]).
+      apply (table_run_part pre p post _ E) with (m := N.to_nat (lenN (cont p) - 1)) (c := 1); [|lia|lia].
+      rewrite <- (lenN_snoc pre p). apply IH. rewrite <- app_assoc. exact E.
+  Qed.
+
+  (* extractTable streams exactly extract(1), extract(2), ..., extract(n): every string once, none NULL,
+     hasNext false exactly after the n-th *)
+  Theorem blocks_table_spec :
+    iter_denotes (table_iter pext (bdict_of parts)) table_init (map Some (ids_view parts)).
+  Proof. apply (table_run_from parts []). reflexivity. Qed.
+End BlocksProofs.
+
+(* ================================================================================ *)
+(* The constructor's partition loop                                                  *)
+(* ================================================================================ *)
+Lemma part_go_nonempty cut : forall rest acc cur, Forall (fun b => b <> []) (part_go cut rest acc cur).
+Proof.
+  induction rest as [|s rest IH]; intros acc cur; cbn [part_go]; [constructor|].
+  destruct (nil_b rest || (cut <? acc + lenN s + 1)); [|apply IH].
+  constructor; [destruct cur; discriminate|apply IH].
+Qed.
+
+Lemma part_go_concat cut : forall rest acc cur, rest <> [] \/ cur = [] ->
+  concat (part_go cut rest acc cur) = cur ++ rest.
+Proof.
+  induction rest as [|s rest IH]; intros acc cur H; cbn [part_go].
+  - destruct H as [H| ->]; [congruence|reflexivity].
+  - destruct rest as [|t rest'].
+    + cbn [nil_b orb part_go concat]. rewrite app_nil_r. reflexivity.
+    + cbn [nil_b orb]. destruct (cut <? acc + lenN s + 1).
+      * cbn [concat]. rewrite IH by (right; reflexivity). rewrite <- app_assoc. reflexivity.
+      * rewrite IH by (left; discriminate). rewrite <- app_assoc. reflexivity.
+Qed.
+
+Lemma part_go_head cut : forall rest acc c cs, rest <> [] ->
+  exists b Bt, part_go cut rest acc (c :: cs) = (c :: b) :: Bt.
+Proof.
+  induction rest as [|s rest IH]; intros acc c cs H; [congruence|]. cbn [part_go].
+  destruct rest as [|t rest'].
+  - cbn [nil_b orb app]. eauto.
+  - cbn [nil_b orb]. destruct (cut <? acc + lenN s + 1); [cbn [app]; eauto|].
+    cbn [app]. apply IH. discriminate.
+Qed.
+
+Lemma build_go_spec cut : forall rest acc qty sn cur samples starts blocks,
+  (sn = true /\ cur = []) \/ (sn = false /\ cur <> []) -> lenN cur <= qty ->
+  let Bt := part_go cut rest acc cur in
+  build_go cut rest acc qty sn cur samples starts blocks =
+  mk_bbuild (samples ++ (if sn then block_firsts Bt else tl (block_firsts Bt)))
+            (starts ++ (if sn then starts_from qty Bt else tl (starts_from (qty - lenN cur) Bt)))
+            (blocks ++ Bt) (qty + lenN rest).
+Proof.
+  induction rest as [|s rest IH]; intros acc qty sn cur samples starts blocks Hinv Hq; cbn zeta.
+  - cbn [build_go part_go block_firsts flat_map starts_from tl]. ln0.
+    destruct sn; rewrite !app_nil_r, N.add_0_r; reflexivity.
+  - cbn [build_go part_go]. rewrite lenN_cons.
+    destruct rest as [|t rest'].
+    + (* last string: flush *)
+      cbn [nil_b orb]. rewrite IH by (try (left; split; reflexivity); ln0; lia). cbn zeta.
+      cbn [part_go block_firsts flat_map starts_from app tl]. ln0. rewrite !app_nil_r, N.add_0_r.
+      destruct Hinv as [[-> ->]|[-> Hc]].
+      * cbn [app]. f_equal; rewrite ?app_nil_r, <- ?app_assoc; cbn [app]; try reflexivity; try lia.
+      * destruct cur as [|c cs]; [congruence|]. cbn [app tl]. f_equal; rewrite ?app_nil_r, <- ?app_assoc; cbn [app]; try reflexivity; try lia.
+    + cbn [nil_b orb]. destruct (cut <? acc + lenN s + 1) eqn:Ecut.
+      * (* flush *)
+        rewrite IH by (try (left; split; reflexivity); ln0; lia). cbn zeta.
+        set (Bt' := part_go cut (t :: rest') 0 []).
+        rewrite <- !app_assoc. cbn [app].
+        destruct Hinv as [[-> ->]|[-> Hc]].
+        -- cbn [app block_firsts flat_map starts_from]. fold (block_firsts Bt').
+           change (lenN [s]) with 1. f_equal; rewrite ?app_nil_r, <- ?app_assoc; cbn [app]; try reflexivity; try lia.
+        -- destruct cur as [|c cs]; [congruence|]. cbn [app block_firsts flat_map starts_from tl]. fold (block_firsts Bt').
+           replace (qty - lenN (c :: cs) + lenN (c :: cs ++ [s])) with (qty + 1) by (rewrite !lenN_cons, lenN_snoc in *; lia). f_equal; rewrite ?app_nil_r, <- ?app_assoc; cbn [app]; try reflexivity; try lia.
+      * (* keep accumulating *)
+        rewrite IH; [|right; split; [reflexivity|destruct cur; discriminate]|rewrite lenN_snoc; lia]. cbn zeta.
+        set (Bt := part_go cut (t :: rest') (acc + lenN s + 1) (cur ++ [s])).
+        destruct Hinv as [[-> ->]|[-> Hc]].
+        -- cbn [app] in *. destruct (part_go_head cut (t :: rest') (acc + lenN s + 1) s [] ltac:(discriminate)) as (b & Bt' & E).
+           subst Bt. rewrite E. cbn [block_firsts flat_map app tl starts_from]. change (lenN [s]) with 1.
+           rewrite <- !app_assoc. cbn [app]. replace (qty + 1 - 1) with qty by lia. f_equal; rewrite ?app_nil_r, <- ?app_assoc; cbn [app]; try reflexivity; try lia.
+        -- rewrite lenN_snoc. replace (qty + 1 - (lenN cur + 1)) with (qty - lenN cur) by lia. f_equal; rewrite ?app_nil_r, <- ?app_assoc; cbn [app]; try reflexivity; try lia.
+Qed.
+
+(* what the constructor leaves in the object: samples = first strings of the blocks, starting
+   indexes = running totals, blocks = consecutive non-empty ranges of S *)
+Theorem blocks_build_spec cut S :
+  let B := blocks_partition cut S in
+  blocks_build cut S = mk_bbuild (block_firsts B) (starts_from 0 B) B (lenN S) /\
+  concat B = S /\ Forall (fun b => b <> []) B.
+Proof.
+  cbn zeta. unfold blocks_build, blocks_partition. split; [|split].
+  - rewrite build_go_spec by (try (left; split; reflexivity); ln0; lia). reflexivity.
+  - rewrite part_go_concat by (right; reflexivity). reflexivity.
+  - apply part_go_nonempty.
+Qed.
+
+(* ---- the instance the oracle runs: parts answer by the specification ------------------ *)
+Lemma range_extract_spec B id : range_extract B id = spec_extract B id.
+Proof.
+  unfold range_extract, spec_extract. destruct (N.eqb_spec id 0); [reflexivity|]. cbn [orb].
+  destruct (N.ltb_spec (lenN B) id); [|reflexivity].
+  symmetry. unfold nthN. apply nth_error_None. unfold lenN in *. lia.
+Qed.
+
+Lemma spec_parts_ok B : Forall (fun b => b <> []) B ->
+  Forall (part_ok spec_locate range_extract (fun b => b) (fun b => b)) B.
+Proof.
+  intros H. eapply Forall_impl; [|exact H]. cbn beta. intros b Hb. unfold part_ok.
+  split; [exact Hb|]. split; [tauto|]. split; [reflexivity|]. split; [reflexivity|]. intros i. apply range_extract_spec.
+Qed.
+
+Lemma spec_bdict_eq cut S : spec_bdict cut S = bdict_of (fun b => b) (blocks_partition cut S).
+Proof.
+  destruct (blocks_build_spec cut S) as (E & Hc & _). cbn zeta in *. unfold spec_bdict, bdict_of. rewrite E. cbn [bb_qty bb_samples bb_starts bb_blocks].
+  rewrite map_id, Hc. reflexivity.
+Qed.
+
+Theorem model_blocks_spec cut S : S <> [] -> sorted_lt S -> lenN S + 1 < sz64 ->
+  (forall q, model_blocks_locate cut S q = Some (spec_locate S q)) /\
+  (forall id, id < sz64 -> model_blocks_extract cut S id = Some (spec_extract S id)) /\
+  iter_denotes (table_iter range_extract (spec_bdict cut S)) table_init (map Some S).
+Proof.
+  intros Hne Hs Hlen. destruct (blocks_build_spec cut S) as (_ & Hc & Hb). cbn zeta in *.
+  set (B := blocks_partition cut S) in *.
+  assert (HBne : B <> []) by (intros E; rewrite E in Hc; cbn in Hc; congruence).
+  pose proof (spec_parts_ok B Hb) as Hok.
+  assert (Hs' : sorted_lt (concat (map (fun b : list str => b) B))) by (rewrite map_id, Hc; exact Hs).
+  assert (Hl1 : lenN (concat (map (fun b : list str => b) B)) < sz64) by (rewrite map_id, Hc; lia).
+  assert (Hl2 : lenN (concat (map (fun b : list str => b) B)) + 1 < sz64) by (rewrite map_id, Hc; exact Hlen).
+  assert (Hv : ids_view (fun b : list str => b) B = S) by (unfold ids_view; rewrite map_id; exact Hc).
+  unfold model_blocks_locate, model_blocks_extract. rewrite spec_bdict_eq. fold B.
+  split; [|split].
+  - intros q. rewrite (blocks_locate_spec spec_locate range_extract (fun b => b) (fun b => b) B Hok HBne Hs' Hl1 q), Hv. reflexivity.
+  - intros id Hid. rewrite (blocks_extract_spec spec_locate range_extract (fun b => b) (fun b => b) B Hok HBne Hs' Hl1 id Hid), Hv. reflexivity.
+  - rewrite <- Hv. apply (blocks_table_spec spec_locate range_extract (fun b => b) (fun b => b) B Hok HBne Hs' Hl1 Hl2).
 Qed.
